@@ -121,7 +121,8 @@ class Lean:
 
     def build(self, targets):
         t0 = time.time()
-        lock = open(os.path.join(LEAN_DIR, '.build.lock'), 'w')
+        key = sorted(set(re.findall(r'C\d\d', ' '.join(targets)))) or ['misc']
+        lock = open(os.path.join(LEAN_DIR, '.build.lock.' + key[0]), 'w')
         fcntl.flock(lock, fcntl.LOCK_EX)
         try:
             p = subprocess.run(['lake', 'build', *targets], cwd=LEAN_DIR, capture_output=True, text=True)
@@ -144,19 +145,31 @@ class Lean:
                 names.append((sub, f'{ns}.{m.group(1)}'))
         return names
 
+    def import_closure(self, prop_id):
+        """the .lean files (inside the project) that Props/<id>.lean and Witness/<id>.lean depend on, transitively"""
+        todo = [f'NasdaqModel.{sub}.{prop_id}' for sub in ('Props', 'Witness')]
+        seen = {}
+        while todo:
+            m = todo.pop()
+            if m in seen:
+                continue
+            path = os.path.join(LEAN_DIR, *m.split('.')) + '.lean'
+            if not os.path.exists(path):
+                continue
+            src = open(path).read()
+            seen[m] = (path, src)
+            todo += re.findall(r'^import\s+(NasdaqModel\.\S+)', src, re.M)
+        return seen
+
     def forbidden_tokens(self, prop_id):
-        """grep for sorry/admit/axiom/native_decide/... outside comments in everything the property's modules import"""
+        """sorry/admit/axiom/native_decide/... outside comments in everything the property's modules import (checked every run)"""
         bad = []
         pat = re.compile(r'\bsorry\b|\badmit\b|^axiom\s|native_decide|bv_decide|implemented_by|\bunsafe\s|maxHeartbeats\s+0\b', re.M)
-        for root, _d, files in os.walk(os.path.join(LEAN_DIR, 'NasdaqModel')):
-            for f in files:
-                if not f.endswith('.lean'):
-                    continue
-                src = open(os.path.join(root, f)).read()
-                src = re.sub(r'/-.*?-/', '', src, flags=re.S)
-                src = re.sub(r'--.*', '', src)
-                for m in pat.finditer(src):
-                    bad.append(f'{f}: {m.group(0).strip()}')
+        for m, (path, src) in sorted(self.import_closure(prop_id).items()):
+            src = re.sub(r'/-.*?-/', '', src, flags=re.S)
+            src = re.sub(r'--.*', '', src)
+            for hit in pat.finditer(src):
+                bad.append(f'{m}: {hit.group(0).strip()}')
         return bad
 
     def run_audit(self, prop_id):
@@ -171,7 +184,8 @@ class Lean:
         if os.path.exists(cache):
             c = json.load(open(cache))
             if c.get('key') == key.hexdigest():
-                self.audit, self.audit_ok, self.audit_log = c['audit'], c['ok'], c['log']
+                self.audit, self.audit_log = c['audit'], c['log']
+                self.audit_ok = c['axioms_ok'] and not self.forbidden_tokens(prop_id)
                 return self.audit_ok
         src = '\n'.join(f'import {m}' for m in mods) + '\n' + '\n'.join(f'#print axioms {n}' for _, n in thms) + '\n'
         path = os.path.join(LEAN_DIR, '.lake', f'Audit_{prop_id}.lean')
@@ -183,10 +197,12 @@ class Lean:
             audit[m.group(1)] = [a.strip() for a in m.group(2).replace('\n', ' ').split(',') if a.strip()]
         for m in re.finditer(r"'([^']+)' does not depend on any axioms", out):
             audit[m.group(1)] = []
-        ok = p.returncode == 0 and all(n in audit for _, n in thms) and \
-            all(set(ax) <= ALLOWED_AXIOMS for ax in audit.values()) and not self.forbidden_tokens(prop_id)
+        axioms_ok = p.returncode == 0 and all(n in audit for _, n in thms) and \
+            all(set(ax) <= ALLOWED_AXIOMS for ax in audit.values())
+        ok = axioms_ok and not self.forbidden_tokens(prop_id)
         self.audit, self.audit_ok, self.audit_log = audit, ok, out[-5000:]
-        json.dump({'key': key.hexdigest(), 'audit': audit, 'ok': ok, 'log': self.audit_log}, open(cache, 'w'))
+        if p.returncode == 0:       # only the #print axioms part is cached; the token grep runs every time
+            json.dump({'key': key.hexdigest(), 'audit': audit, 'axioms_ok': axioms_ok, 'log': self.audit_log}, open(cache, 'w'))
         return ok
 
 
